@@ -1,6 +1,6 @@
 (* Props/C20.v — property theorems only.  C20: per-borehole and system flow specifications are equivalent. *)
-From Coq Require Import ZArith QArith List.
-From GHE Require Import Base.QUtil gen.Src Proof.FlowP.
+From Coq Require Import String ZArith QArith List.
+From GHE Require Import Base.QUtil gen.Src Proof.FlowP Proof.WiringP.
 Import ListNotations.
 Open Scope Q_scope.
 
@@ -30,3 +30,13 @@ Theorem C20_system_flow_decreases : forall (c1 c2 : list (Q * Q)) rho v, c1 <> [
   | Ok m1, Ok m2 => m2 < m1 | _, _ => False end.
 Proof. exact system_flow_decreases. Qed.
 Print Assumptions C20_system_flow_decreases.
+
+(* the call sites in manager.py and design.py (read on every run): the requested flow type reaches every design class and
+   every search routine *)
+Theorem C20_flow_type_reaches_every_search :
+  forall l, In l [wiring_nearsquare_search; wiring_rectangle_search; wiring_birectangle_search;
+                  wiring_bizoned_search; wiring_constrained_search; wiring_rowwise_search] ->
+  In "flow_type=self.flow_type"%string l /\ In "method=self.method"%string l /\
+  In "pos:self.sim_params"%string l /\ In "pos:self.hourly_extraction_ground_loads"%string l.
+Proof. exact every_search_gets_the_design_s_flow_type_and_method. Qed.
+Print Assumptions C20_flow_type_reaches_every_search.
